@@ -127,7 +127,7 @@ class SgzLoader3d(SgzLoader):
     @lru_cache(maxsize=1)
     def read_and_decompress_il_set(self, i):
         il_block_offset = ((self.chunk_bytes * self.shape_pad[1]) // 4) * (i // 4)
-        buffer = self._get_compressed_bytes(il_block_offset, self.chunk_bytes * self.shape_pad[1])
+        buffer = self._get_compressed_bytes(il_block_offset, (self.chunk_bytes * self.shape_pad[1]) // 4)
         return self._decompress(buffer, (self.blockshape[0], self.shape_pad[1], self.shape_pad[2]))
 
     @lru_cache(maxsize=1)
